@@ -43,6 +43,8 @@ func main() {
 	dump := flag.String("dump", "", "debug: dump (tables|prov|sinks)")
 	goosFlag := flag.String("goos", "", "analyse the package as built for this GOOS (thorough-tier configuration sweep)")
 	noTag := flag.Bool("notag", false, "analyse without the hook build tag")
+	flag.BoolVar(&noInline, "noinline", false, "debug: do not inline helpers that are not in rules/baseline_functions.json")
+	flag.StringVar(&dumpNormalised, "dump-normalised", "", "debug: write the normalised source files to this directory")
 	flag.Parse()
 	if *prop == "" {
 		fmt.Println("usage: anonverif -prop Cnn [-tier quick|thorough]")
